@@ -283,7 +283,13 @@ class Harness(object):
         finally:
             if self.rec.intent.get(side, {}).get("label") == label:
                 self.rec.intent.pop(side, None)
+            self.api_ret(side, "request")
         return res
+
+    def api_ret(self, side, what):
+        """control is back in the application on `side`: what an observer of the API sees now"""
+        conn = self.conn[side]
+        self.rec.log(t="api_ret", side=side, what=what, closed=bool(conn.closed), hooks=self.hooks[side])
 
     def delivered(self, label, ar):
         """callback of an asynchronous result: its response has been dispatched"""
@@ -311,6 +317,7 @@ class Harness(object):
         finally:
             if self.rec.intent.get(side, {}).get("label") == label:
                 self.rec.intent.pop(side, None)
+            self.api_ret(side, "request")
         return None
 
     def wait(self, label):
@@ -329,6 +336,7 @@ class Harness(object):
             self.outcomes.setdefault(label, []).append(out)
             if out == "timeout":
                 self.rec.log(t="api_timeout", side=side, label=label)
+        self.api_ret(side, "wait")
 
     def close(self, side):
         conn = self.conn[side]
@@ -342,6 +350,7 @@ class Harness(object):
         if not was:
             self.rec.log(t="api_close_end", side=side, raised=raised)
         self.close_results[side].append(raised)
+        self.api_ret(side, "close")
 
     def before_closed(self, side, mode):
         def hook(root):
@@ -359,6 +368,11 @@ class Harness(object):
         self.fired = dict(op=info["op"], side=info["side"])
         stream = info["stream"]
         ent = info.get("entry")
+        if f["how"] == "oserr":
+            # poll() itself fails with something that is not EOFError (select.error); the stream stays as it is
+            if ent is not None:
+                ent["oserr"] = True
+            raise OSError("injected select error")
         if f["how"] == "err":
             # the stream meets an I/O error: it closes itself and raises EOFError (rpyc/core/stream.py)
             if ent is not None:
@@ -792,6 +806,8 @@ def abstract(h, side):
             pending_frame = None
             continue
         if t == "poll":
+            if e.get("oserr"):
+                continue              # leaves serve() as it is; serve_all's finally follows (serve_all_exit)
             if e["own_closed"] or e.get("faulted"):
                 flush_reply()
                 if skip_poll_fail:
@@ -904,6 +920,22 @@ def fault_points(workload, cuts, rng=None):
     for k, (op, side) in enumerate(h.rec.calls):
         faults.append(dict(k=k, how="err"))
         faults.append(dict(k=k, how="eof"))
+    # serve_all() of side B polling at its base level (no request in progress there): poll raises OSError
+    depth = 0
+    pend = None
+    for e in h.rec.events:
+        if e.get("side") != "B":
+            continue
+        if e["t"] == "recv":
+            pend = e
+        elif e["t"] == "recvbody":
+            if pend is not None and pend.get("msg") == consts.MSG_REQUEST and not e.get("eof"):
+                depth += 1
+            pend = None
+        elif e["t"] == "write" and e["msg"] != consts.MSG_REQUEST:
+            depth -= 1
+        elif e["t"] == "poll" and depth == 0 and not e["own_closed"]:
+            faults.append(dict(k=e["call"], how="oserr"))
     if cuts:
         for e in h.rec.events:
             if e["t"] == "recv" and e.get("flen"):
@@ -936,7 +968,7 @@ def run_case(workload, fault):
 def correspondence(ctx):
     c = Corr()
     c.rule = ("17 workloads x (fault-free run + a fault at every individual transport call of that run, two flavours: I/O "
-              "error at this end / the peer vanishing) + cuts at byte offsets inside the packet at every header read "
+              "error at this end / the peer vanishing; + poll() raising OSError at every base-level poll of serve_all) + cuts at byte offsets inside the packet at every header read "
               "(quick: header boundaries, first/middle/last body bytes + 2 seeded offsets of every packet; thorough: every "
               "offset of every packet). "
               "Compared per side, after the workload and after the after-phase (wait for everything pending, two new "
@@ -1012,8 +1044,12 @@ def correspondence(ctx):
             side, n, ids = metas[base + 1]
             c.samples.append(dict(workload=wname, fault=f, fired=h.fired, ops=lines[base + 1][:300],
                                   outcome=compare(h, side, n, ids, outs[base + 1])[0][:300]))
-    c.exhaustive = not c.distribution.get("skipped:time-budget")
-    c.extra["exhaustive_over"] = "every transport call of the fault-free run of every workload x 2 flavours (+ cuts as stated)"
+    complete = not c.distribution.get("skipped:time-budget")
+    c.exhaustive = bool(complete and thorough)       # thorough: also every byte offset of every packet
+    c.extra["every_transport_call_of_every_workload_faulted"] = bool(complete)
+    c.extra["exhaustive_over"] = ("every transport call of the fault-free run of every workload x 2 flavours, every base-level "
+                                  "poll of serve_all with OSError; byte offsets inside packets: %s"
+                                  % ("all" if thorough else "boundaries + 2 seeded per packet"))
     return c
 
 
@@ -1024,7 +1060,8 @@ def oracle(h):
     if h.hang:
         return ("a request hung: the network reported a deadlock (all sides blocked without deadline)", "C11:hang")
     for side in "AB":
-        # did this side close, was it told to close, or did it meet a failure WHILE SERVING before snapshot 1?
+        # did this side close, was it told to close, or did it meet a failure WHILE SERVING?  Then it must report
+        # closed (hook run once) as soon as control is back in the application, and at snapshot 1 at the latest
         must1 = False
         reason = None
         awaiting = False
@@ -1036,6 +1073,17 @@ def oracle(h):
             if e.get("side") != side:
                 continue
             t = e["t"]
+            if t == "api_ret":
+                if awaiting and e["what"] != "close":
+                    must1, reason, awaiting = True, reason or "a response could not be sent", False
+                if must1 and not e["closed"]:
+                    sig = "C11:reply-send-failure-leaves-open" if "response" in reason else "C11:not-closed"
+                    return ("side %s: %s, but closed == False when control returned to the application (hook runs %d)"
+                            % (side, reason, e["hooks"]), sig)
+                if e["closed"] and e["hooks"] != 1 and e["what"] != "close-inner":
+                    return ("side %s reports closed with %d hook runs when control returned to the application"
+                            % (side, e["hooks"]), "C11:closed-without-hook")
+                continue
             if t == "api_close_end":
                 must1, reason = True, "close() returned"
             elif t == "recvbody" and not (e.get("eof") or e.get("faulted")):
@@ -1043,6 +1091,8 @@ def oracle(h):
             elif t == "recv" and e.get("handler") == consts.HANDLE_CLOSE and not (e.get("eof") or e.get("faulted")) \
                     and e.get("cut") is None:
                 must1, reason = True, "the peer's close was received"
+            elif t == "serve_all_exit":
+                must1, reason = True, "serve_all() ended"
             elif t in ("recv", "recvbody", "poll") and (e.get("eof") or e.get("faulted") or
                                                         (t == "poll" and e["own_closed"])):
                 must1, reason = True, "EOF / I/O error while receiving (%s)" % t
@@ -1054,7 +1104,8 @@ def oracle(h):
                 awaiting = False
         s1, s2 = h.snap[1][side], h.snap[2][side]
         if must1 and not s1["closed"]:
-            sig = "C11:reply-send-failure-leaves-open" if "response" in reason else "C11:not-closed"
+            sig = ("C11:reply-send-failure-leaves-open" if "response" in reason else
+                   "C11:serve-all-exit-leaves-open" if "serve_all" in reason else "C11:not-closed")
             return ("side %s: %s, but closed == False after the workload (hook runs %d)" % (side, reason, s1["hooks"]), sig)
         for n, s in ((1, s1), (2, s2)):
             if s["hooks"] > 1:
@@ -1062,7 +1113,10 @@ def oracle(h):
             if s["closed"] and s["hooks"] != 1:
                 return ("side %s reports closed but its disconnect hook ran %d times" % (side, s["hooks"]), "C11:closed-without-hook")
             if s["closed"] and s["tables"] is not None and sum(s["tables"]) != 0:
-                sig = "C11:box-after-close-holds-objects" if s["tables"][0] else "C11:tables-not-cleared"
+                boxed_late = any(e["t"] == "api_req" and e["side"] == side and e["ref"] and e["own_closed"] for e in ev) \
+                    or h.workload == "close_in_callback_ref"
+                sig = "C11:box-after-close-holds-objects" if (s["tables"][0] and boxed_late and sum(s["tables"][1:]) == 0) \
+                    else "C11:tables-not-cleared"
                 return ("side %s is closed but holds (local objects, proxies, callbacks) = %r" % (side, s["tables"]), sig)
         # the last close() of the after-phase is a second close: a no-op
         if side == "A" or h.b_finished():
